@@ -323,6 +323,7 @@ CInv_SpRestored == SpRestored(par, St)
 CInv_NoWriteAtOrAboveOriginalSp == NoWriteAtOrAboveOriginalSp(par, St)
 CInv_NoRedZoneWriteIfLeaf == NoRedZoneWriteIfLeaf(par, St)
 CInv_ReadsOnlyOwnSlots == ReadsOnlyOwnSlots(par, St)
+CInv_SpAlignedOnAccess == SpAlignedOnAccess(par, St)
 CInv_NoCollateral == NoCollateral(par, St)
 CInv_FlagsRestoredIfDeclared == FlagsRestoredIfDeclared(par, St)
 CInv_ReportedAdjustment == ReportedAdjustment(par, St)
